@@ -56,92 +56,28 @@ def r1(ctx, rep):
     same = Obj('s', sort_tuple=(1, 2))
     ok = it.safe(fn, [same, same]) == 0
     rep.instance(R1, ok=ok, nontrivial='orderitems-identity')
-    # the five operators come from one wrapper
-    cd = m.clsdef(ClassRef(LEX, 'Lexical'))
-    assign = [st for st in cd.body if isinstance(st, ast.Assign) and any(isinstance(t, ast.Name) and t.id == '__eq__' for t in st.targets)]
-    names = sorted(t.id for st in assign for t in st.targets if isinstance(t, ast.Name))
-    ok = len(assign) == 1 and names == ['__eq__', '__ge__', '__gt__', '__le__', '__lt__'] and astq.u(assign[0].value) == 'wrapper()'
-    rep.instance(R1, ok=ok, nontrivial='operators-one-wrapper')
-    if not ok:
-        rep.finding(R1, 'C14.R1/Lexical/operators', m.relfile(LEX), 'Lexical', f'==,<,<=,>,>= are no longer assigned together from the one orderitems wrapper (found {names})')
-    wr = [st for st in cd.body if isinstance(st, ast.FunctionDef) and st.name == 'wrapper']
-    ok = bool(wr) and 'oper(Lexical.orderitems(self, other), 0)' in astq.u(wr[0]) and 'getattr(opr, member.name)' in astq.u(wr[0]) and 'return NotImplemented' in astq.u(wr[0])
-    rep.instance(R1, ok=ok, nontrivial='wrapper')
-    if not ok:
-        rep.finding(R1, 'C14.R1/Lexical/wrapper', m.relfile(LEX), 'Lexical.wrapper', 'comparison wrapper is no longer `oper(orderitems(self, other), 0)` with NotImplemented for foreign types')
-    hi = m.func(LEX, 'Lexical.hashitem')
-    ok = 'return hash((__class__, item.sort_tuple))' in astq.u(hi)
-    rep.instance(R1, ok=ok, nontrivial='hashitem')
-    if not ok:
-        rep.finding(R1, 'C14.R1/Lexical.hashitem', m.loc(LEX, hi), 'Lexical.hashitem', 'hash is no longer computed from sort_tuple (equal items could hash differently)')
+    # constructors, comparison operators, hash and ident folded (sa.lexfold) -- replaces the former text-fragment rules
+    from .. import lexfold
+    for fold in (lexfold.fold_constructors, lexfold.fold_compare_ops, lexfold.fold_argument):
+        res, cons = fold(m)
+        rep.consult(*cons)
+        seen = set()
+        for ok, case, detail in res:
+            rep.instance(R1, ok=ok, nontrivial=(fold.__name__, case))
+            if not ok:
+                k = case.split(' on ')[0].split(':')[0]
+                if k in seen:
+                    continue
+                seen.add(k)
+                rep.finding(R1, f'C14.R1/{fold.__name__[5:]}/{k}', cons[0].split(' ')[0] if cons else m.relfile(LEX), fold.__name__[5:], f'{case}: {detail}')
+    # Lexical.__hash__ returns the cached key hash
     hh = m.func(LEX, 'Lexical.__hash__')
-    ok = 'return self.hash' in astq.u(hh)
+    ith = Interp({}, where='Lexical.__hash__')
+    r = ith.safe(hh, [Obj('item', hash='CACHED')])
+    ok = r == 'CACHED'
     rep.instance(R1, ok=ok, nontrivial='__hash__')
     if not ok:
-        rep.finding(R1, 'C14.R1/Lexical.__hash__', m.loc(LEX, hh), 'Lexical.__hash__', 'no longer returns the cached key hash')
-    ii = m.func(LEX, 'Lexical.identitem')
-    ok = 'return (type(item).__name__, item.spec)' in astq.u(ii)
-    rep.instance(R1, ok=ok, nontrivial='identitem')
-    if not ok:
-        rep.finding(R1, 'C14.R1/Lexical.identitem', m.loc(LEX, ii), 'Lexical.identitem', 'ident is no longer (class name, spec)')
-    # key fields = spec fields, per class
-    for cls, init in (('Predicated', '__init__'), ('Quantified', '__init__'), ('Operated', '__init__'), ('LexicalEnum', '__init__'), ('CoordsItem', '__new__')):
-        fnc = m.func(LEX, f'{cls}.{init}')
-        spec_src = sort_src = None
-        for t, st in astq.stores(fnc):
-            if isinstance(t, ast.Attribute) and t.attr == 'spec' and isinstance(st, ast.Assign):
-                spec_src = st.value
-            if isinstance(t, ast.Attribute) and t.attr == 'sort_tuple' and isinstance(st, ast.Assign):
-                sort_src = st.value
-        if cls == 'CoordsItem':
-            # spec is stored through object.__setattr__ (sa): both derive from `spec`
-            txt = astq.u(fnc)
-            ok = "sa(self, 'spec', (spec := self.Coords._make(" in txt and "sa(self, 'sort_tuple', (self.TYPE.rank, *spec.sorting()))" in txt
-            rep.instance(R1, ok=ok, nontrivial=(cls, 'fields'))
-            if not ok:
-                rep.finding(R1, f'C14.R1/{cls}/fields', m.loc(LEX, fnc), f'{cls}.__new__', 'sort_tuple is no longer (type rank, *spec.sorting()) of the very spec stored')
-            continue
-        if spec_src is None or sort_src is None:
-            raise AnalysisError(f'{cls}.{init}: spec / sort_tuple assignments not found')
-
-        def fields(e):
-            bound = set()
-            for n in ast.walk(e):
-                if isinstance(n, ast.comprehension):
-                    bound |= astq.names_in(n.target)
-            return {n.id for n in ast.walk(e) if isinstance(n, ast.Name) and n.id not in bound and n.id not in ('self', 'tuple', '_Ranks', 'type')}
-        fs, fk = fields(spec_src), fields(sort_src)
-        if cls == 'LexicalEnum':
-            # spec = (name,), key = (rank, order): order is the member's own value, name its identity within the enum
-            ok = astq.u(sort_src) == '(_Ranks[type(self).__name__], order)' and astq.u(spec_src) == '(self.name,)'
-        else:
-            ok = fs == fk and astq.u(sort_src).startswith('(self.TYPE.rank,')
-        rep.instance(R1, ok=ok, sample=dict(cls=cls, spec_fields=sorted(fs), key_fields=sorted(fk)), nontrivial=(cls, 'fields'))
-        rep.consult(m.loc(LEX, fnc) + f' {cls}.{init}')
-        if not ok:
-            rep.finding(R1, f'C14.R1/{cls}/fields', m.loc(LEX, fnc), f'{cls}.{init}',
-                        f'fields feeding spec {sorted(fs)} differ from fields feeding sort_tuple {sorted(fk)} (or the key does not start with the type rank): '
-                        f'equality (by key) and identity (by spec) would disagree')
-    for coords, want in (('BiCoords', 'self.Sorting(self.subscript, self.index)'), ('TriCoords', 'self.Sorting(self.subscript, self.index, self.arity)')):
-        f_ = m.func(LANG, f'{coords}.sorting')
-        ok = want in astq.u(f_)
-        rep.instance(R1, ok=ok, nontrivial=(coords, 'sorting'))
-        if not ok:
-            rep.finding(R1, f'C14.R1/{coords}.sorting', m.loc(LANG, f_), f'{coords}.sorting', 'the sorting key no longer contains every coordinate')
-    # Argument comparison: one wrapper over orderitems, length first
-    aw = [st for st in m.clsdef(ClassRef(COL, 'Argument')).body if isinstance(st, ast.FunctionDef) and st.name == 'wrapper']
-    txt = astq.u(aw[0]) if aw else ''
-    ok = 'cmp = len(self) - len(other)' in txt and 'starmap(Lexical.orderitems, zip(self, other))' in txt and 'return oper(cmp, 0)' in txt
-    rep.instance(R1, ok=ok, nontrivial='Argument-wrapper')
-    if not ok:
-        rep.finding(R1, 'C14.R1/Argument/wrapper', m.relfile(COL), 'Argument.wrapper', 'argument comparison is no longer length first, then item-wise orderitems')
-    ah = astq.getter(m, COL, 'Argument.hash') if False else None
-    cda = m.clsdef(ClassRef(COL, 'Argument'))
-    htxt = [astq.u(st) for st in cda.body if isinstance(st, ast.FunctionDef) and st.name == 'hash']
-    ok = bool(htxt) and 'return hash(self.seq)' in htxt[0]
-    rep.instance(R1, ok=ok, nontrivial='Argument.hash')
-    if not ok:
-        rep.finding(R1, 'C14.R1/Argument.hash', m.relfile(COL), 'Argument.hash', 'argument hash is no longer the hash of (conclusion, *premises)')
+        rep.finding(R1, 'C14.R1/Lexical.__hash__', m.loc(LEX, hh), 'Lexical.__hash__', f'returns {r!r}, not the cached key hash')
 
 
 def r2(ctx, rep):
